@@ -342,10 +342,10 @@ func run(c *mon.Ctx) {
 	})
 
 	// ---- table header codec: encode then decode is the identity (exhaustive), reserved bits '11'
-	c.Exhaustive("TableHeader: table id 256 x syntax 2 x private 2 x section_length 1024", 256*4*1024)
+	c.Exhaustive("TableHeader: table id 256 x syntax 2 x private 2 x section_length 4096 (12 bits)", 256*4*4096)
 	c.StreamSeedless("table-header", 256, func(id int, r *gen.Rand) {
 		for f := 0; f < 4; f++ {
-			for l := 0; l < 1024; l++ {
+			for l := 0; l < 4096; l++ {
 				th := psi.TableHeader{TableID: uint8(id), SectionSyntaxIndicator: f&1 != 0, PrivateIndicator: f&2 != 0, SectionLength: uint16(l)}
 				b := th.Data()
 				back, err := psi.TableHeaderFromBytes(b)
@@ -364,7 +364,7 @@ func run(c *mon.Ctx) {
 				}
 			}
 		}
-		c.Eval(4096)
+		c.Eval(4 * 4096)
 		c.Class(fmt.Sprintf("tableheader/id=%02x", id))
 		if _, err := psi.TableHeaderFromBytes(make([]byte, id%3)); err == nil {
 			c.Fail("tableheader:short", "TableHeaderFromBytes accepted fewer than 3 bytes", nil)
